@@ -490,13 +490,18 @@ class DefaultScheduler(Scheduler):
                     await self._free_resources(connector, job_allocation)
                 if status == Status.ROLLBACK:
                     for loc in job_allocation.locations:
-                        if (
-                            job_name
-                            in self.location_allocations[loc.deployment][loc.name].jobs
-                        ):
-                            self.location_allocations[loc.deployment][
-                                loc.name
-                            ].jobs.remove(job_name)
+                        # Remove the job from every level of a stacked location
+                        while loc is not None:
+                            if (
+                                job_name
+                                in self.location_allocations[loc.deployment][
+                                    loc.name
+                                ].jobs
+                            ):
+                                self.location_allocations[loc.deployment][
+                                    loc.name
+                                ].jobs.remove(job_name)
+                            loc = loc.wraps if loc.stacked else None
                     job_allocation.locations.clear()
                 self.wait_queue.notify_all()
 
